@@ -707,3 +707,44 @@ theorem valuesOf_flatPairs : ∀ (g : List (List Nat × List (List Nat))), (g.ma
       exact ih hnd.2 k vs h
 
 end RbV.Tsv
+
+namespace RbV.Tsv
+
+/-! ## what follows a line break never changes what was read before it -/
+
+theorem consFirst_append (c : Nat) (xs ys : List (List Nat)) (h : xs ≠ []) :
+    consFirst c (xs ++ ys) = consFirst c xs ++ ys := by
+  cases xs with
+  | nil => exact absurd rfl h
+  | cons p ps => simp [consFirst]
+
+theorem splitOn_append_sep' (sep : Nat) (a b : List Nat) :
+    splitOn sep (a ++ sep :: b) = splitOn sep a ++ splitOn sep b := by
+  induction a with
+  | nil => simp [splitOn]
+  | cons c r ih =>
+    by_cases hc : c = sep
+    · subst hc
+      rw [List.cons_append]
+      rw [show splitOn c (c :: (r ++ c :: b)) = [] :: splitOn c (r ++ c :: b) by rw [splitOn]; simp]
+      rw [show splitOn c (c :: r) = [] :: splitOn c r by rw [splitOn]; simp]
+      rw [ih]; rfl
+    · rw [List.cons_append, splitOn_cons_ne sep c _ hc, splitOn_cons_ne sep c r hc, ih,
+        consFirst_append c _ _ (splitOn_ne_nil sep r)]
+
+theorem rows_append (a b : List Nat) : rows (a ++ LF :: b) = rows a ++ rows b := by
+  unfold rows dataLines
+  rw [splitOn_append_sep', List.filter_append, List.map_append]
+
+theorem withCount_prefix {α : Type} (parse : List (List Nat) → Res α) (r1 r2 : List (List (List Nat))) :
+    (withCount parse (r1 ++ r2)).take (withCount parse r1).length = withCount parse r1 := by
+  cases r1 with
+  | nil => simp [withCount]
+  | cons r0 t =>
+    simp only [withCount, List.cons_append, List.map_cons, List.map_append, List.length_cons, List.length_map]
+    rw [List.take_succ_cons]
+    congr 1
+    rw [List.take_append_of_le_length (by simp)]
+    rw [List.take_of_length_le (by simp)]
+
+end RbV.Tsv
